@@ -1,6 +1,7 @@
 package c14
 
 import (
+	"bufio"
 	"bytes"
 	"context"
 	"encoding/json"
@@ -30,16 +31,20 @@ type Render struct {
 	Yield   int `json:"yield"`   // > 0: the writer yields the processor every Yield bytes
 	FailAt  int `json:"fail_at"` // >= 0: the writer fails at that byte offset
 	Chunked int `json:"chunked"` // > 0: the writer accepts at most that many bytes per Write
+	// Bufio: render into the goroutine's own long-lived bufio.Writer (4 KiB, in front of a sink only
+	// this goroutine uses) and flush it afterwards; what reached the sink must be the document.
+	Bufio bool `json:"bufio"`
 }
 
 type Plan struct {
 	Goroutines [][]Render `json:"goroutines"`
 	Procs      int        `json:"procs"`
 	SharedCtx  bool       `json:"shared_values"` // render the same component *values* (created once) from all goroutines
+	EmptyPools bool       `json:"empty_pools"`   // two garbage collections first, so that templ's buffer pools start empty
 }
 
 var rec = ev.New("C14", "c14.concurrent",
-	"plans of 2..16 goroutines x 1..6 renders over a table of compiled fixture components (text/attribute sinks with control flow, script elements with Go values, css components, script templates, once handles, wrapper components with child blocks, JSON script), each render with its own context and writer (fast, yielding every w bytes, chunked, failing at byte k), GOMAXPROCS 1, 2 or 16, component values created per render or shared by all goroutines; the test binary is built with -race. "+
+	"plans of 2..16 goroutines x 1..6 renders over a table of compiled fixture components (text/attribute sinks with control flow, script elements with Go values, css components, script templates, once handles, wrapper components with child blocks, JSON script), each render with its own context and writer (fast, yielding every w bytes, chunked, failing at byte k, or the goroutine's own long-lived bufio.Writer), GOMAXPROCS 1, 2 or 16, component values created per render or shared by all goroutines; the test binary is built with -race. "+
 		"Oracle: no data race report (the race detector fails the process), every successful render equals the sequential reference of that component byte for byte, every failed one is a prefix of it and returns the writer's error. "+
 		"Non-trivial = >=2 goroutines render the same component with at least one failing writer among them; distinct by plan. Schedules are sampled by the Go scheduler, not enumerated")
 
@@ -129,6 +134,10 @@ func decide(p Plan) error {
 	if p.Procs > 0 {
 		defer runtime.GOMAXPROCS(runtime.GOMAXPROCS(p.Procs))
 	}
+	if p.EmptyPools {
+		runtime.GC()
+		runtime.GC()
+	}
 	shared := make([]templ.Component, len(table))
 	for i, c := range table {
 		shared[i] = c.mk()
@@ -146,15 +155,33 @@ func decide(p Plan) error {
 				}
 			}()
 			<-start
+			var sink bytes.Buffer
+			bw := bufio.NewWriter(&sink)
 			for ri, r := range rs {
 				c := shared[r.Comp%len(table)]
 				if !p.SharedCtx {
 					c = table[r.Comp%len(table)].mk()
 				}
-				w := &planWriter{r: r}
-				err := c.Render(context.Background(), w)
 				want := ref[r.Comp%len(table)]
 				name := table[r.Comp%len(table)].name
+				if r.Bufio {
+					before := sink.Len()
+					err := c.Render(context.Background(), bw)
+					if err == nil {
+						err = bw.Flush()
+					}
+					if err != nil {
+						errs[gi] = fmt.Errorf("goroutine %d render %d (%s) into its own bufio.Writer: %v", gi, ri, name, err)
+						return
+					}
+					if got := sink.Bytes()[before:]; !bytes.Equal(got, want) {
+						errs[gi] = fmt.Errorf("goroutine %d render %d (%s): its own bufio.Writer received %q, alone the document is %q", gi, ri, name, clip(got), clip(want))
+						return
+					}
+					continue
+				}
+				w := &planWriter{r: r}
+				err := c.Render(context.Background(), w)
 				switch {
 				case r.FailAt >= 0 && r.FailAt < len(want):
 					if err == nil || !errors.Is(err, errW) {
@@ -223,6 +250,8 @@ var genRender = rapid.Custom(func(t *rapid.T) Render {
 	case 3:
 		r.FailAt = rapid.IntRange(0, 6000).Draw(t, "failAtAny")
 		r.Yield = 32
+	case 4:
+		r.Bufio = true
 	}
 	return r
 })
@@ -256,6 +285,7 @@ func TestPropConcurrent(t *testing.T) {
 			Goroutines: rapid.SliceOfN(rapid.SliceOfN(genRender, 1, 6), 2, 16).Draw(t, "goroutines"),
 			Procs:      rapid.SampledFrom([]int{1, 2, 16, 16}).Draw(t, "procs"),
 			SharedCtx:  rapid.Bool().Draw(t, "sharedValues"),
+			EmptyPools: rapid.Bool().Draw(t, "emptyPools"),
 		}
 		rec.Eval(1)
 		if nontrivial(p) {
